@@ -172,6 +172,10 @@ class P(Prop):
             return
         uc, io_map = r
         rng = self.rng
+        lost = [x for x in c.outputs() if x not in io_map]
+        if lost:
+            self.fail("search", "sequential_unroll-output-missing", f"outputs {sorted(lost)} are not in the io map", case)
+            return
         pis = sorted(n for n in c.inputs() if n != "clk" or c.fanout("clk") - {f"{f}.clk" for f in flops})
         # reference: cycle-accurate simulation
         for trial in range(3):
